@@ -47,7 +47,7 @@ def run(ctx):
     for roots, every in (('mem', 1 if q else 3), ('disk', 4 if q else 3)):
         shards, total, taken = vlib.shard_lines(ctx, r['out'], NPROC, marker='\\"k\\":\\"view\\"', every=every, offset=ctx.seed)
         # every second shard instantiates the model's names so that some START WITH the name of the disk root directory
-        parts.append(vlib.run_sharded(ctx, lambda p: ['views', '--in', p, '--tmp', dtmp, '--roots', roots] + (['--naming', 'prefix'] if int(p.rsplit('_', 1)[1].split('.')[0]) % 2 else []), shards))
+        parts.append(vlib.run_sharded(ctx, lambda p: ['views', '--in', p, '--tmp', dtmp, '--roots', roots] + (['--naming', 'prefix'] if int(p.rsplit('_', 1)[1].split('.')[0]) % 2 else []) + (['--spelling', 'long'] if int(p.rsplit('_', 1)[1].split('.')[0]) % 3 == 0 else []), shards))
     m = parts[0]
     for other in parts[1:]:
         m['executed'] += other['executed']
